@@ -24,6 +24,19 @@ TOL = 1e-9
 
 
 # ------------------------------------------------------------------------------------------------ extraction from a model
+_SKIP = object()
+
+
+class _OpaqueStandIn:
+    """stands for a collaborator the contract never looks into"""
+
+    def __init__(self, what):
+        self.what = what
+
+    def __repr__(self):
+        return "<%s>" % self.what
+
+
 def extract_state(model, it_facts, fi, self_obj, env, schema, mro_fn, max_len=40):
     """walk the object graph reachable from self/args in the model"""
     import z3
@@ -143,6 +156,54 @@ def extract_state(model, it_facts, fi, self_obj, env, schema, mro_fn, max_len=40
                 obj["fields"][field0] = {"arr2": [[num(F("h.%s[,]" % field, R, I, I, Re)(refval, z3.IntVal(i), z3.IntVal(j))) for j in range(nc)] for i in range(nr)]}
         return oid
 
+    pyobjs = {}
+
+    def conv(v):
+        """values of contract-built environments (objects of concrete shape, containers of terms): a JSON-able description"""
+        from .core import ObjV, LArr, LArr2, Opaque
+        from .interp import PyObjV, ClassV
+
+        if isinstance(v, PyObjV):
+            if id(v) not in pyobjs:
+                oid = "p%d" % len(pyobjs)
+                pyobjs[id(v)] = oid
+                o = {"class": v.cls, "module": getattr(v.module, "name", None), "fields": {}}
+                objects[oid] = o
+                for f, fv in v.fields.items():
+                    c = conv(fv)
+                    if c is not _SKIP:
+                        o["fields"][f] = c
+            return {"ref": pyobjs[id(v)]}
+        if isinstance(v, ObjV):
+            oid = visit(ev(v.ref))
+            return {"ref": oid} if oid is not None else None
+        if isinstance(v, bool) or v is None or isinstance(v, (int, float, str)):
+            return v
+        if z3.is_expr(v):
+            return num(v)
+        if isinstance(v, LArr):
+            n = num(z3.IntVal(v.n) if isinstance(v.n, int) else v.n)
+            n = max(0, min(n if isinstance(n, int) else 0, max_len))
+            return {"arr1": [num(core.to_real(v.get(i))) for i in range(n)]}
+        if isinstance(v, LArr2):
+            nr, nc = (num(z3.IntVal(d) if isinstance(d, int) else d) for d in (v.nr, v.nc))
+            return {"arr2": [[num(core.to_real(v.get(i, j))) for j in range(nc)] for i in range(nr)]}
+        if isinstance(v, np.ndarray) and v.ndim == 1:
+            return {"arr1": [x.item() for x in v]}
+        if isinstance(v, list):
+            return {"pylist": [conv(x) for x in v if conv(x) is not _SKIP]}
+        if isinstance(v, tuple):
+            return {"pytuple": [conv(x) for x in v]}
+        if isinstance(v, (set, frozenset)):
+            return {"pyset": [conv(x) for x in v]}
+        if isinstance(v, dict):
+            return {"pydict": [[conv(k), conv(x)] for k, x in v.items() if conv(x) is not _SKIP]}
+        if isinstance(v, Opaque):
+            return {"opaque": v.what}
+        if isinstance(v, ClassV):
+            return {"class_ref": v.name, "module": getattr(v.module, "name", None)}
+        return _SKIP
+
     args = {}
     self_id = None
     for k, v in env.items():
@@ -162,6 +223,10 @@ def extract_state(model, it_facts, fi, self_obj, env, schema, mro_fn, max_len=40
             args[k] = {"arr1": [num(core.to_real(v.get(i))) for i in range(n)]}
         elif isinstance(v, (int, float, str, bool)) or v is None:
             args[k] = v
+        else:
+            c = conv(v)
+            if c is not _SKIP:
+                args[k] = c
     return {"function": fi.qualname, "objects": objects, "self": self_id, "args": args}
 
 
@@ -172,7 +237,10 @@ def build(desc):
     cmod = importlib.import_module("atomica." + desc["class_module"]) if desc.get("class_module") else mod
     objs = {}
     for oid, o in desc["objects"].items():
-        cls = (getattr(cmod, o["class"], None) or getattr(mod, o["class"])) if o["class"] else object
+        if o.get("module"):
+            cls = getattr(importlib.import_module("atomica." + o["module"]), o["class"])
+        else:
+            cls = (getattr(cmod, o["class"], None) or getattr(mod, o["class"])) if o["class"] else object
         objs[oid] = object.__new__(cls)
 
     def val(v):
@@ -188,6 +256,20 @@ def build(desc):
                 if a.ndim == 1:
                     a = a.reshape((len(v["arr2"]), 0))
                 return np.asfortranarray(a)
+            if "pylist" in v:
+                return [val(x) for x in v["pylist"]]
+            if "pytuple" in v:
+                return tuple(val(x) for x in v["pytuple"])
+            if "pyset" in v:
+                return set(val(x) for x in v["pyset"])
+            if "pydict" in v:
+                import sciris as sc
+
+                return sc.odict([(val(k), val(x)) for k, x in v["pydict"]])
+            if "opaque" in v:
+                return _OpaqueStandIn(v["opaque"])
+            if "class_ref" in v:
+                return getattr(importlib.import_module("atomica." + v["module"]), v["class_ref"]) if v.get("module") else None
         return v
 
     for oid, o in desc["objects"].items():
@@ -197,7 +279,10 @@ def build(desc):
             d[f] = val(v)
             if f in TUPLE_FIELDS and isinstance(d[f], np.ndarray):
                 d[f] = tuple(float(x) for x in d[f])  # a tuple in the real objects (its truth value is used)
-        d.setdefault("id", ("pop", oid))
+        if not oid.startswith("p"):
+            d.setdefault("id", ("pop", oid))
+        elif isinstance(d.get("id"), list):
+            d["id"] = tuple(d["id"])
         try:
             obj.__dict__.update(d)
         except Exception:
@@ -413,6 +498,8 @@ def run_replay(desc, contract, clause_name=None):
             self_obj = install_stubs(self_obj, contract["stubs"], args, contract.get("ghost_params"))
         except Exception as e:
             return dict(out, verdict="error", detail="cannot install stubs: %s: %s" % (type(e).__name__, e))
+    if self_obj is None and "self" in args:
+        self_obj = args.pop("self")  # a contract-built receiver of concrete shape
     env = dict(args)
     if self_obj is not None:
         env["self"] = self_obj
